@@ -37,10 +37,10 @@ CONSTANTS
 FlagIdx(f) ==
   CASE f = "D_CAS_GHOST" -> 1 [] f = "D_HASH_ZERO" -> 2 [] f = "D_LAZY_HASH" -> 3
     [] f = "D_SYS_WILDCARD" -> 4 [] f = "D_PUBLISH_SYS" -> 5 [] f = "D_IMPORT_NO_LS" -> 6
-    [] f = "D_LOCK_GARBAGE" -> 7 [] f = "D_GGLW_PARSE" -> 8 [] OTHER -> 9
-NFlags == 9
+    [] f = "D_LOCK_GARBAGE" -> 7 [] f = "D_GGLW_PARSE" -> 8 [] f = "D_CAS_SHAPED" -> 9 [] f = "D_NULL_RELOAD" -> 10 [] OTHER -> 11
+NFlags == 11
 FlagNames == <<"D_CAS_GHOST", "D_HASH_ZERO", "D_LAZY_HASH", "D_SYS_WILDCARD", "D_PUBLISH_SYS",
-               "D_IMPORT_NO_LS", "D_LOCK_GARBAGE", "D_GGLW_PARSE", "D_OTHER">>
+               "D_IMPORT_NO_LS", "D_LOCK_GARBAGE", "D_GGLW_PARSE", "D_CAS_SHAPED", "D_NULL_RELOAD", "D_OTHER">>
 Flag(f) == f \in Dev /\ TLCSet(FlagIdx(f), TRUE)
 
 INT  == "int"                     \* INTERNAL_CLIENT_ID
@@ -617,5 +617,42 @@ DoDisconnected(S, c) ==
                      \* events for the departing client's own subscriptions are not observable
                      !.ev = RestrictF(@, {x \in DOMAIN @ : x[1] # c}),
                      !.ls = RestrictF(@, {x \in DOMAIN @ : x[1] # c})]
+
+(***************************************************************************)
+(* Restart with the JSON persistence: flush (Store::export strips $SYS,    *)
+(* registrations are collected from $SYS/clients/?/graveGoods|lastWill),   *)
+(* then load into a fresh instance: store, then all grave goods, then all  *)
+(* last wills, applied by the internal client (v3.rs load, v2.rs, v1.rs).  *)
+(* layout "v1" has no registrations file.                                  *)
+(***************************************************************************)
+\* a plain value that looks like the file format's tag for CAS entries
+\* ({"Cas":[v,n]}) is read back as a CAS entry: ValueEntry is externally tagged
+\* for Cas and untagged for Plain (worterbuch-common/src/lib.rs:144-149)
+CasShaped(v) == v \in DOMAIN Meaning /\ "cas" \in DOMAIN Meaning[v]
+\* a plain JSON null is written as "v":null and read back as "no value" (Option<V>
+\* deserialisation, store.rs:141-143): the key is gone, its node stays behind
+NullTok == "j:null"
+Reloaded(e) ==
+  IF e.k = "plain" /\ CasShaped(e.v) /\ Flag("D_CAS_SHAPED")
+    THEN CasE(Meaning[e.v].cas.v, Meaning[e.v].cas.n)
+  ELSE IF e.k = "plain" /\ e.v = NullTok /\ Flag("D_NULL_RELOAD") THEN NoneE
+  ELSE e
+
+RECURSIVE ConcatSeqs(_)
+ConcatSeqs(set) ==
+  IF set = {} THEN <<>>
+  ELSE LET x == CHOOSE y \in set : TRUE IN x \o ConcatSeqs(set \ {x})
+
+AllGG(S) == ConcatSeqs({GGOf(S, c) : c \in {q[3] : q \in {x \in DOMAIN S.store : Len(x) = 4 /\ x[1] = SYS /\ x[2] = CLIENTS /\ x[4] = GG}}})
+AllLW(S) == ConcatSeqs({LWOf(S, c) : c \in {q[3] : q \in {x \in DOMAIN S.store : Len(x) = 4 /\ x[1] = SYS /\ x[2] = CLIENTS /\ x[4] = LW}}})
+
+DoRestart(S, layout) ==
+  LET keep == {q \in DOMAIN S.store : q = <<>> \/ q[1] # SYS}
+      st0  == [q \in keep |-> Reloaded(S.store[q])]
+      S0   == [InitS EXCEPT !.store = st0, !.len = CountVals(st0)]
+      r1   == IF layout = "v1" THEN Res(S0, Ok) ELSE BurySeq(Res(S0, Ok), AllGG(S), INT)
+      r2   == IF layout = "v1" THEN r1 ELSE WillSeq(r1, AllLW(S), INT)
+  IN [Res(r2.s, IF r2.s.down THEN Down ELSE Ok) EXCEPT !.lk = UNION {UNION {{<<q, "cancelled">> : q \in S.locks[k].cands[i].reqs}
+                                                  : i \in 1..Len(S.locks[k].cands)} : k \in DOMAIN S.locks}]
 
 =============================================================================
